@@ -335,6 +335,10 @@ func (w *c12) exec(op *c12op) {
 	case 'W':
 		p := w.payload(op)
 		n, err := w.bws.Write(p)
+		// a Writer must not retain p: the caller reuses it at once
+		for i := range p {
+			p[i] = 0x7E
+		}
 		w.dead()
 		w.ev++
 		op.ret, op.gotN, op.err = w.ev, n, err
